@@ -8,7 +8,7 @@ from fractions import Fraction
 import math
 import struct
 from .lin import Lin, T
-from .state import (State, IntV, BoolV, FpV, PtrV, AggV, Split, Infeasible, pred_key, fl, cl, INF)
+from .state import (State, PList, IntV, BoolV, FpV, PtrV, AggV, Split, Infeasible, pred_key, fl, cl, INF)
 from . import ir as IR
 
 
@@ -63,6 +63,8 @@ class Result:
         self.stats = {"states": 0, "steps": 0, "forks": 0, "trap_edges": 0, "trap_edges_dead": 0,
                       "loads": 0, "loads_inbounds": 0, "joins": 0, "infeasible": 0}
         self.trap_sites_seen = set()
+        self.dropped_wraps = []
+        self.dropped_notes = []
 
 
 def tz_of(x):
@@ -100,18 +102,22 @@ def nxt(x, up, kind):
 
 
 class Analyzer:
-    def __init__(self, mod, fn, join_threshold=300, max_states=60000, max_iter=80):
+    def __init__(self, mod, fn, join_threshold=300, max_states=400000, max_iter=80, early_join=8):
+        self.early_join = early_join
+        self.partition = {}
+        self.symdeps = {}
         self.mod = mod
         self.fn = IR.materialize(fn, mod)
         self.join_threshold = join_threshold
         self.max_states = max_states
         self.max_iter = max_iter
-        self._find_loops()
         self.trap_blocks = {}
         for bn, b in self.fn.blocks.items():
             for i in b.insts:
                 if i.op == "call" and i.ops[0] == "llvm.ubsantrap":
                     self.trap_blocks[bn] = i
+        self.trap_blocks_pre = set(self.trap_blocks)
+        self._find_loops()
         self.gsize = {}
 
     # ------------------------------------------------------------ CFG
@@ -149,6 +155,58 @@ class Analyzer:
                 stack.pop()
         self.loop_heads = {h for _, h in self.back_edges}
         self._liveness()
+        self._loop_control()
+
+    def _loop_control(self):
+        """for each loop head: the head phis on which an exit condition of the loop depends"""
+        fn = self.fn
+        self.ctrl_phis = {}
+        defs = {}
+        for bn, b in fn.blocks.items():
+            for i in b.insts:
+                if i.res is not None:
+                    defs[i.res] = (bn, i)
+        for h in self.loop_heads:
+            body = {h}
+            work = [n for (n, hh) in self.back_edges if hh == h]
+            while work:
+                n = work.pop()
+                if n in body:
+                    continue
+                body.add(n)
+                work.extend(self.preds[n])
+            roots = []
+            for bn in body:
+                t = fn.blocks[bn].insts[-1]
+                if t.op == "condbr":
+                    outside = [x for x in (t.ops[1], t.ops[2]) if x not in body and x not in self.trap_blocks_pre]
+                    if outside:
+                        roots.extend(self._uses(t))
+                elif t.op == "switch":
+                    roots.extend(self._uses(t))
+            seen = set()
+            ctrl = set()
+            while roots:
+                n = roots.pop()
+                if n in seen:
+                    continue
+                seen.add(n)
+                d = defs.get(n)
+                if d is None:
+                    continue
+                bn, i = d
+                if bn not in body:
+                    continue
+                if i.op == "phi":
+                    if bn == h:
+                        ctrl.add(n)
+                        continue
+                    for v, lab in i.ops:
+                        if v.kind == "reg":
+                            roots.append(v.val)
+                    continue
+                roots.extend(self._uses(i))
+            self.ctrl_phis[h] = ctrl
 
     @staticmethod
     def _uses(inst):
@@ -299,11 +357,14 @@ class Analyzer:
             return PtrV(None, self.cint(64, 0))
         raise Broken("operand kind %s" % k)
 
-    def mk(self, st, w, lin, tz=0, pred=None, pbase=None):
+    def mk(self, st, w, lin, tz=0, pred=None, pbase=None, clip=False):
         lo, hi = st.rng_lin_int(lin)
         tlo, thi = sgn_rng(w)
         if lo < tlo or hi > thi:
-            if pbase is None:
+            if clip:
+                lo = max(lo, tlo)
+                hi = min(hi, thi)
+            elif pbase is None:
                 raise Broken("internal: value range [%d,%d] escapes i%d for %r" % (lo, hi, w, lin))
         if lo > hi:
             raise Infeasible()
@@ -311,7 +372,41 @@ class Analyzer:
             tz = max(tz, tz_of(lin.c)) if not isinstance(lin.c, Fraction) else tz
         return IntV(w, lin, lo, hi, tz, pred, pbase)
 
-    def fresh(self, st, w, term, lo, hi, tz=0, pred=None):
+    def pmint(self, st, term, lo, hi, deps=()):
+        """mint a symbol; record what it depends on; apply a requested value partition"""
+        s = st.mint(term, lo, hi)
+        if term not in self.symdeps:
+            d = set()
+            for x in deps:
+                d.update(x.t)
+            self.symdeps[term] = d
+        if term in self.partition and term not in st.parted:
+            a, z = st.bounds[s]
+            cases = self.classes(Lin.sym(s), a, z, term)
+            if len(cases) > 1:
+                raise Split(cases, "partition")
+            st.parted = st.parted | {term}
+        return s
+
+    def classes(self, lin, lo, hi, term):
+        """sign / bit-length classes of [lo,hi] as Split cases"""
+        pts = {lo, hi + 1, 0, 1}
+        k = 0
+        while k < 127:
+            e = 1 << k
+            if lo < e <= hi:
+                pts.add(e)
+            if lo < -e + 1 <= hi:
+                pts.add(-e + 1)
+            k += 1
+        pts = sorted(pts)
+        cases = []
+        for a, z in zip(pts, pts[1:]):
+            if lo <= a and z - 1 <= hi and a <= z - 1:
+                cases.append([("lin", lin, a, z - 1), ("parted", term)])
+        return cases
+
+    def fresh(self, st, w, term, lo, hi, tz=0, pred=None, deps=()):
         tlo, thi = sgn_rng(w)
         lo = max(lo, tlo)
         hi = min(hi, thi)
@@ -319,7 +414,7 @@ class Analyzer:
             raise Infeasible()
         if lo == hi:
             return self.cint(w, lo)
-        s = st.mint(term, lo, hi)
+        s = self.pmint(st, term, lo, hi, deps)
         a, z = st.bounds[s]
         return IntV(w, Lin.sym(s), a, z, tz, pred)
 
@@ -336,7 +431,7 @@ class Analyzer:
         if khi - klo <= 3:
             raise Split([[("lin", exact, k * M - H, k * M + H - 1)] for k in range(klo, khi + 1)], "wrap")
         st.wraps.append((inst.line, kind, None, opn, lo, hi))
-        return self.fresh(st, w, T(kind + ".wrap", w, exact.key()), -H, H - 1, tz)
+        return self.fresh(st, w, T(kind + ".wrap", w, exact.key()), -H, H - 1, tz, deps=(exact,))
 
     def as_int(self, st, v, w=None):
         """IntV view of a value (BoolV -> 0/1 unsigned)"""
@@ -378,7 +473,7 @@ class Analyzer:
             return l, lo - jlo * P, hi - jhi * P
         if jhi - jlo <= 1 and (k >= v.w - 1):
             raise Split([[("lin", v.lin, None, jhi * P - 1)], [("lin", v.lin, jhi * P, None)]], "lowbits")
-        s = st.mint(T("lowbits", v.lin.key(), k), 0, P - 1)
+        s = self.pmint(st, T("lowbits", v.lin.key(), k), 0, P - 1, (v.lin,))
         # the symbol is a multiple of 2^tz
         a, z = st.bounds[s]
         return Lin.sym(s), a, z
@@ -518,6 +613,10 @@ class Analyzer:
                 st.tag = st.tag + (r[1],)
             elif r[0] == "isc":
                 st.isc[r[1]] = r[2]
+            elif r[0] == "src":
+                st.src = r[1]
+            elif r[0] == "parted":
+                st.parted = st.parted | {r[1]}
             else:
                 raise Broken("refinement %r" % (r,))
 
@@ -602,6 +701,18 @@ class Analyzer:
         res = Result()
         self.res = res
         active = [init]
+        for ps in sorted(k for k in self.partition if k in init.bounds):
+            nxt_ = []
+            for s0 in active:
+                a, z = s0.bounds[ps]
+                for case in self.classes(Lin.sym(ps), a, z, ps):
+                    s2 = s0.fork()
+                    try:
+                        self.apply(s2, case)
+                    except Infeasible:
+                        continue
+                    nxt_.append(s2)
+            active = nxt_
         visited = {}
         parked = {}
         nstates = 1
@@ -610,7 +721,7 @@ class Analyzer:
                 # join parked states
                 for key, sts in list(parked.items()):
                     del parked[key]
-                    if len(sts) > self.join_threshold:
+                    if len(sts) > self.join_threshold or (len(sts) > self.early_join and self.same_control(sts, key[0])):
                         res.stats["joins"] += 1
                         active.append(self.join(sts, key))
                     else:
@@ -633,12 +744,12 @@ class Analyzer:
                         continue
                     h = hash(sig)
                     prev = visited.get(h)
-                    if prev is not None and prev[0] == sig:
-                        prev[1].wraps.extend(s.wraps)
-                        prev[1].notes.extend(s.notes)
+                    if prev is not None and prev == sig:
+                        res.dropped_wraps.extend(s.wraps)
+                        res.dropped_notes.extend(s.notes)
                         res.stats["dedup"] = res.stats.get("dedup", 0) + 1
                         continue
-                    visited[h] = (sig, s)
+                    visited[h] = sig
                 nstates += 1
                 if nstates > self.max_states:
                     raise Broken("state budget exceeded (%d) in %s" % (self.max_states, self.fn.name))
@@ -652,6 +763,38 @@ class Analyzer:
                     active.append(s)
         res.stats["states"] = nstates
         return res
+
+    def _pred_syms(self, p, out):
+        k = p[0]
+        if k == "icmp":
+            out.update(p[2].lin.t)
+            out.update(p[3].lin.t)
+        elif k == "not":
+            self._pred_syms(p[1], out)
+        elif k in ("and", "or"):
+            self._pred_syms(p[1], out)
+            self._pred_syms(p[2], out)
+        elif k == "lin":
+            out.update(p[1].t)
+
+    def same_control(self, sts, head):
+        for n in self.ctrl_phis.get(head, ()):
+            k0 = None
+            for s in sts:
+                v = s.env.get(n)
+                if isinstance(v, IntV):
+                    k = ("i", v.lin.key())
+                elif isinstance(v, PtrV):
+                    k = ("p", v.glob, v.off.lin.key())
+                elif isinstance(v, BoolV):
+                    k = ("b", v.tv)
+                else:
+                    return False
+                if k0 is None:
+                    k0 = k
+                elif k != k0:
+                    return False
+        return True
 
     def join(self, sts, key):
         base = sts[0].fork()
@@ -735,10 +878,33 @@ class Analyzer:
                 base.bounds[t] = (lo, hi)
                 env[n] = PtrV(v0.glob, IntV(64, Lin.sym(t), lo, hi))
             # else: dropped (use will be reported as undefined -> Broken)
+        # prune: keep only live names, and symbols/constraints reachable from them
+        live = self.live_after_phi[head]
+        env = {n: v for n, v in env.items() if n in live}
+        keep = set(k for k in base.bounds if isinstance(k, str) and k[0] == "p" and k[1:].isdigit())
+        for v in env.values():
+            if isinstance(v, IntV):
+                keep.update(v.lin.t)
+            elif isinstance(v, PtrV):
+                keep.update(v.off.lin.t)
+            elif isinstance(v, BoolV) and v.tv is None:
+                self._pred_syms(v.pred, keep)
+            elif isinstance(v, FpV):
+                if v.xlin is not None:
+                    keep.update(v.xlin.t)
+                if v.slin is not None:
+                    keep.update(v.slin.t)
+        base.cons = {k: c for k, c in base.cons.items() if all(y in keep for y, _ in k)}
+        base.conlin = {k: v for k, v in base.conlin.items() if k in base.cons}
+        base.bounds = {k: b for k, b in base.bounds.items() if k in keep}
+        fkeep = set(v.fsym for v in env.values() if isinstance(v, FpV) and v.fsym is not None)
+        base.fb = {k: b for k, b in base.fb.items() if k in fkeep or (k[0] == "f" and k[1:].isdigit())}
+        base.prod = {k: v for k, v in base.prod.items() if k in keep}
         base.env = env
         base.trace = base.trace + [("join", head, len(sts))]
-        base.wraps = [w for s in sts for w in s.wraps]
-        base.notes = [n for s in sts for n in s.notes]
+        for s in sts[1:]:
+            self.res.dropped_wraps.extend(s.wraps)
+            self.res.dropped_notes.extend(s.notes)
         return base
 
     def step_block(self, st):
@@ -1029,7 +1195,7 @@ class Analyzer:
                 lo = 0 if alo <= 0 <= ahi else min(alo * alo, ahi * ahi)
             k1, k2 = sorted([ka, kb], key=repr)
             t = T("mul", k1, k2)
-            s = st.mint(t, lo, hi)
+            s = self.pmint(st, t, lo, hi, (a.lin, b.lin))
             st.prod[s] = (k1, k2)
             l = Lin.sym(s)
         lo, hi = st.rng_lin_int(l)
@@ -1075,7 +1241,7 @@ class Analyzer:
             st.env[i.res] = a
             return
         r, _, _ = self.lowbits(st, a, k)
-        st.env[i.res] = self.mk(st, a.w, a.lin.sub(r).div(1 << k), max(0, a.tz - k))
+        st.env[i.res] = self.mk(st, a.w, a.lin.sub(r).div(1 << k), max(0, a.tz - k), clip=True)
 
     def x_lshr(self, st, i):
         a, b = self.ints(st, i)
@@ -1088,7 +1254,7 @@ class Analyzer:
             st.env[i.res] = a
             return
         r, _, _ = self.lowbits(st, a, k)
-        st.env[i.res] = self.mk(st, a.w, ul.sub(r).div(1 << k), max(0, a.tz - k))
+        st.env[i.res] = self.mk(st, a.w, ul.sub(r).div(1 << k), max(0, a.tz - k), clip=True)
 
     def maxbits(self, st, v):
         """mask of bits that may be set in the two's complement representation"""
@@ -1139,11 +1305,13 @@ class Analyzer:
                 if hb == w:
                     # x - lowbits(x, lb)   (keeps the sign bit)
                     r, _, _ = self.lowbits(st, a, lb)
-                    st.env[i.res] = self.mk(st, w, a.lin.sub(r), max(lb, a.tz))
+                    st.env[i.res] = self.mk(st, w, a.lin.sub(r), max(lb, a.tz), clip=True)
                 else:
                     rh, _, _ = self.lowbits(st, a, hb)
                     rl, _, _ = self.lowbits(st, a, lb)
-                    st.env[i.res] = self.mk(st, w, rh.sub(rl), max(lb, a.tz))
+                    v = self.mk(st, w, rh.sub(rl), max(lb, a.tz), clip=True)
+                    v.lo = max(v.lo, 0)
+                    st.env[i.res] = v
                 return
         # generic
         ma = self.maxbits(st, a)
@@ -1157,7 +1325,7 @@ class Analyzer:
             lo, hi = sgn_rng(w)
         else:
             lo, hi = 0, m
-        st.env[i.res] = self.fresh(st, w, T("and", w, k1, k2), lo, hi, tz_of(m))
+        st.env[i.res] = self.fresh(st, w, T("and", w, k1, k2), lo, hi, tz_of(m), deps=(a.lin, b.lin))
 
     def x_or(self, st, i):
         a = self.val(st, i.ops[0])
@@ -1188,6 +1356,14 @@ class Analyzer:
             return
         ma = self.maxbits(st, a)
         mb = self.maxbits(st, b)
+        oa = (alo & ((1 << w) - 1)) if alo == ahi else ((1 << (w - 1)) if ahi < 0 else 0)
+        ob = (blo & ((1 << w) - 1)) if blo == bhi else ((1 << (w - 1)) if bhi < 0 else 0)
+        if mb & ~oa == 0:
+            st.env[i.res] = a      # every bit b may set is already set in a
+            return
+        if ma & ~ob == 0:
+            st.env[i.res] = b
+            return
         if ma & mb == 0:
             # disjoint bits: or == add on the two's complement representation (no carries)
             st.env[i.res] = self.wrapfit(st, w, a.lin.add(b.lin), "or", i, min(a.tz, b.tz))
@@ -1198,7 +1374,7 @@ class Analyzer:
             lo, hi = sgn_rng(w)
         else:
             lo, hi = max(alo, blo, 0), m
-        st.env[i.res] = self.fresh(st, w, T("or", w, k1, k2), lo, hi, min(a.tz, b.tz))
+        st.env[i.res] = self.fresh(st, w, T("or", w, k1, k2), lo, hi, min(a.tz, b.tz), deps=(a.lin, b.lin))
 
     def x_xor(self, st, i):
         a = self.val(st, i.ops[0])
@@ -1232,7 +1408,7 @@ class Analyzer:
         lo, hi = sgn_rng(w)
         if alo >= 0 and blo >= 0:
             lo, hi = 0, (1 << max(ahi.bit_length(), bhi.bit_length())) - 1
-        st.env[i.res] = self.fresh(st, w, T("xor", w, k1, k2), lo, hi)
+        st.env[i.res] = self.fresh(st, w, T("xor", w, k1, k2), lo, hi, deps=(a.lin, b.lin))
 
     # ---- division
     def divparts(self, st, a, b, signed):
@@ -1279,7 +1455,7 @@ class Analyzer:
         cs = [tdiv(x, y) for x in (alo, ahi) for y in (blo, bhi)]
         qlo, qhi = min(cs), max(cs)
         t = T("sdiv" if signed else "udiv", w, al.key(), bl.key())
-        qs = st.mint(t, qlo, qhi)
+        qs = self.pmint(st, t, qlo, qhi, (al, bl))
         q = Lin.sym(qs)
         # remainder: |r| < |b|, sign of a
         mb = max(abs(blo), abs(bhi)) - 1
@@ -1288,7 +1464,7 @@ class Analyzer:
         else:
             rlo, rhi = -min(mb, -alo), 0
         rt = T("srem" if signed else "urem", w, al.key(), bl.key())
-        rs = st.mint(rt, rlo, rhi)
+        rs = self.pmint(st, rt, rlo, rhi, (al, bl))
         return q, Lin.sym(rs)
 
     def trunc_rem(self, st, al, alo, ahi, m):
@@ -1303,7 +1479,7 @@ class Analyzer:
             # canonical representative: shift by multiples of m so that lower bound in [0,m)
             base = al.addc(-j0 * m)
             blo, bhi = alo - j0 * m, ahi - j0 * m
-            s = st.mint(T("rem+", base.key(), m), 0, m - 1)
+            s = self.pmint(st, T("rem+", base.key(), m), 0, m - 1, (base,))
             return Lin.sym(s), 0, m - 1
         else:
             # al <= 0 : r = -((-al) rem m)
@@ -1314,12 +1490,12 @@ class Analyzer:
     def x_sdiv(self, st, i):
         a, b = self.ints(st, i)
         q, r = self.divparts(st, a, b, True)
-        st.env[i.res] = self.mk(st, a.w, q)
+        st.env[i.res] = self.mk(st, a.w, q, clip=True)
 
     def x_srem(self, st, i):
         a, b = self.ints(st, i)
         q, r = self.divparts(st, a, b, True)
-        st.env[i.res] = self.mk(st, a.w, r)
+        st.env[i.res] = self.mk(st, a.w, r, clip=True)
 
     def x_udiv(self, st, i):
         a, b = self.ints(st, i)
@@ -1417,7 +1593,7 @@ class Analyzer:
         sub = vals[lo // esz: hi // esz + 1]
         sl, sh = sgn_rng(ty.bits)
         sub = [v if v <= sh else v - (1 << ty.bits) for v in sub]
-        st.env[i.res] = self.fresh(st, ty.bits, T("load", p.glob, idxlin.key()), min(sub), max(sub))
+        st.env[i.res] = self.fresh(st, ty.bits, T("load", p.glob, idxlin.key()), min(sub), max(sub), deps=(idxlin,))
 
     # ---- compare / select
     def x_icmp(self, st, i):
@@ -1548,9 +1724,9 @@ class Analyzer:
             return
         cases = [[("lin", exact, tlo, thi)]]
         if lo < tlo:
-            cases.append([("lin", exact, None, tlo - 1)])
+            cases.append([("lin", exact, None, tlo - 1), ("src", exact)])
         if hi > thi:
-            cases.append([("lin", exact, thi + 1, None)])
+            cases.append([("lin", exact, thi + 1, None), ("src", exact)])
         raise Split(cases, "overflow")
 
     def count_zeros(self, st, i, leading, args):
@@ -1587,6 +1763,7 @@ class Analyzer:
     def alarm(self, st, i, kind, detail):
         chain = IR.dbg_chain(self.mod, i.dbg)
         al = Alarm(kind, chain, i.line, st.fork(), detail)
+        al.src = getattr(st, "src", None)
         self.res.alarms.append(al)
         self.res.trap_sites_seen.add(i.line)
 
